@@ -79,7 +79,7 @@ Print Assumptions rdata_roundtrip_fields.
 (* every character-string survives _escapify followed by the tokenizer's unescape_to_bytes *)
 Theorem quoted_string_roundtrip : forall x, Forall is_octet x ->
   tok_unescape (escapify_q x) = Ok x /\ q_clean (escapify_q x) = true.
-Proof. intros x H. split; [apply unescape_escapify|apply escapify_q_clean]; exact H. Qed.
+Proof. exact quoted_string_roundtrip_proof. Qed.
 Print Assumptions quoted_string_roundtrip.
 
 (* ... and for RRSIG records (covered type printed as its mnemonic) and for unknown types in the
@@ -132,7 +132,7 @@ Print Assumptions wf_any_order.
 
 (* the printer's name sort only reorders the names *)
 Theorem printed_order_permutation : forall st nodes, Permutation (printed_order st nodes) nodes.
-Proof. intros st nodes. unfold printed_order. destruct (st_sorted st); [apply zsort_perm|reflexivity]. Qed.
+Proof. exact printed_order_perm. Qed.
 Print Assumptions printed_order_permutation.
 
 (* the class and type columns the printer writes read back, and are never taken for a TTL or a
